@@ -198,6 +198,10 @@ def run_random(ctx, desc):
         rig.autoboot = rng.random() < 0.4
         if rig.autoboot:
             ops.append(("device-restarts-at-once",))
+        if rng.random() < 0.35:
+            # node guarding is switched on for node K: heartbeats and boot-ups are decoded as before, toggle bit or not
+            ops.append(("node-guarding-on",))
+            rig.m_k.nmt.start_node_guarding(0.5)
         for step in range(desc["length"]):
             r = rng.random()
             mark = len(rig.bus.log)
@@ -304,9 +308,12 @@ def run_random(ctx, desc):
         except Exception as exc:  # noqa: BLE001
             ctx.violation(f"nmt-operation-raised:{type(exc).__name__}:id-from-od", f"RemoteNode({arg!r}, od with node id 21) / state assignment raised {exc!r}", {"workload": "id-from-od", "arg": repr(arg)})
         rig.bus.close()
-    # make sure every heartbeat byte was exercised at least once per shard
+    # make sure every heartbeat byte was exercised at least once per shard (the second time with node guarding running)
     rig = Rig()
-    for b in range(256):
+    for b in list(range(256)) + ["guard"] + [rng.randrange(256) for _ in range(64)] + [5, 5, 0x85, 0x85, 4]:
+        if b == "guard":
+            rig.m_k.nmt.start_node_guarding(1.0)
+            continue
         rig.ext.send(0x700 + K, bytes([b]))
         rig.hear_heartbeat("ext", K, b)
         ctx.count("heartbeat_bytes")
@@ -409,6 +416,20 @@ def run_waits(ctx, desc):
             ctx.inconc(f"wait_for_bootup timeout: {status}", case)
         elif status != "raised" or not isinstance(val, NmtError):
             ctx.violation("wait-for-bootup-no-error", f"no boot-up arrived, wait_for_bootup ended {status} with {val!r}", case)
+        # ---- several callers wait for the same node at once: one message serves them all
+        bb = [b"\x00", b"\x80"][rnd % 2]
+        res = waits.run_waiters([lambda: nmt.wait_for_heartbeat(40), lambda: (nmt.wait_for_bootup(40), "ok")[1], lambda: nmt.wait_for_heartbeat(40)],
+                                cond, lambda: rig.ext.send(0x700 + K, bb))
+        ctx.count("wait_cases")
+        ctx.case(("wait-several-waiters", bb[0]))
+        for i, (status, val) in enumerate(res):
+            wcase = {"workload": "waits", "kind": "several-waiters", "waiter": i, "byte": bb[0]}
+            if status in ("hung", "never-waited"):
+                ctx.inconc(f"several NMT waiters: {status}", wcase)
+            elif status == "not-woken":
+                ctx.violation("waiter-not-woken:several-waiters", f"waiter {i} of 3 was not woken by the boot-up message that arrived while it waited", wcase)
+            elif status != "returned" or val != ("ok" if i == 1 else "PRE-OPERATIONAL"):
+                ctx.violation("wait-several-waiters", f"waiter {i} of 3 ended {status} with {val!r} after a boot-up message", wcase)
         # ---- ordinary heartbeats keep arriving but never a boot-up: the call still fails with NmtError once its time
         #      is over.  Judged on logical steps: after the deadline has certainly passed, every further heartbeat is
         #      delivered only when the waiter is parked again; a conformant wait parks at most once more.
